@@ -27,6 +27,8 @@ def srcdir(pid, m):
     """where the author's deliverables live: round 1 = /tmp/mut-Cxx/out/m1|m2, round 2 (m3) = /tmp/mut2-Cxx/out/m1"""
     if m == "m3":
         return "/tmp/mut2-%s" % pid, "/tmp/mut2-%s/out/m1" % pid
+    if m == "m4":
+        return "/tmp/mut3-%s" % pid, "/tmp/mut3-%s/out/m1" % pid
     return "/tmp/mut-%s" % pid, "/tmp/mut-%s/out/%s" % (pid, m)
 
 def load(key):
